@@ -574,8 +574,14 @@ struct Edgelist2Binary : public Conversion {
     uint32_t counter = 0;
     bool skippedLine = false;
     while (infile) {
+      // A failed extraction leaves the stream in a failed state in which
+      // ignore() does nothing: clear it before skipping the line, otherwise
+      // the first comment or malformed line silently ends the conversion.
       uint32_t src;
       if (!(infile >> src)) {
+        if (infile.eof())
+          break;
+        infile.clear();
         skipLine(infile);
         skippedLine = true;
         continue;
@@ -583,6 +589,9 @@ struct Edgelist2Binary : public Conversion {
 
       uint32_t dst;
       if (!(infile >> dst)) {
+        if (infile.eof())
+          break;
+        infile.clear();
         skipLine(infile);
         skippedLine = true;
         continue;
